@@ -311,7 +311,10 @@ func c02CheckStream(res *explore.Result, s c02Session, mc *memnet.Conn, where st
 	raw := mc.Output()
 	lens := mc.WriteLens()
 	if s.SSL {
-		if len(raw) == 0 || (raw[0] != 'N' && raw[0] != 'S') {
+		if len(raw) == 0 {
+			return 0 // the write of the SSL answer itself failed: nothing was delivered
+		}
+		if raw[0] != 'N' && raw[0] != 'S' {
 			res.Fail("ssl-byte", fmt.Sprintf("%s %s: SSLRequest not answered with a single S/N byte: % x", s.Name, where, raw[:min(len(raw), 8)]))
 			return 0
 		}
@@ -393,7 +396,7 @@ func init() {
 		Bounds: func(tier string) map[string]any {
 			return map[string]any{"writer_sequence_depth": c02Depth(tier), "sessions": len(c02Sessions(tier))}
 		},
-		RequiredOutcomes: []string{"writer", "session", "session+write-faults", "error-shapes"},
+		RequiredOutcomes: []string{"writer", "session+write-faults", "error-shapes"},
 	})
 }
 
